@@ -1,22 +1,13 @@
 //go:build verif
 
-package dhcpd
+package stats
 
 // Contracts for govc (see /verif/DESIGN.md).  This file is comment-only and is compiled only with -tags=verif.
-
-// ---- C14: the lease database is only ever replaced atomically ----
-
-//@ func writeDB(path string, leases []*dbLease) (err error)
-//@   property C14
-//@   modifies *
-//@   callsite github.com/google/renameio/v2/maybe.WriteFile(filename, data, perm) requires filename == path0
-
-//@ sweep C14 os.WriteFile, os.Create, os.OpenFile, os.Truncate, github.com/google/renameio/v2/maybe.WriteFile, github.com/google/renameio/v2.WriteFile
 
 // ---- C11: routes are registered through the authenticating helper with a non-empty method ----
 // (an empty method is reserved for the DNS-over-HTTPS resolver paths and skips authentication in home.httpRegister)
 //@ package-callsite functype:github.com/AdguardTeam/AdGuardHome/internal/aghhttp.RegisterFunc(method, url, handler) requires method != "" || url == "/dns-query" || url == "/dns-query/"
 //@ sweep C11 functype:github.com/AdguardTeam/AdGuardHome/internal/aghhttp.RegisterFunc
-//@ func (s *server) registerHandlers()
+//@ func (s *StatsCtx) initWeb()
 //@   property C11
 //@   modifies *
